@@ -37,6 +37,22 @@ def main(argv) -> int:
         return 2
     if argv[0] == "--setup":
         return setup()
+    if argv[0] == "--coqchk":
+        # independent re-check of the compiled property files and everything they depend on (several minutes)
+        import subprocess
+        with common.Lock():
+            ok, lg, _ = common.regen()
+            ok2, lg2 = common.coq_make([]) if ok else (False, lg)
+            if not (ok and ok2):
+                print((lg if not ok else lg2)[-2000:])
+                return 1
+            mods = ["Props." + os.path.basename(f)[:-2] for f in sorted(os.listdir("/verif/coq/Props")) if f.endswith(".v")]
+            cmd = ["coqchk", "-silent", "-o", "-Q", "Base", "Base", "-Q", "Gen", "Gen", "-Q", "Model", "Model", "-Q", "Proofs", "Proofs", "-Q", "Props", "Props"] + mods
+            p = subprocess.run(cmd, cwd="/verif/coq", stdout=subprocess.PIPE, stderr=subprocess.STDOUT, text=True, timeout=3600)
+            print(p.stdout[-6000:])
+            os.makedirs("/verif/evidence", exist_ok=True)
+            open("/verif/evidence/coqchk.txt", "w").write(p.stdout)
+            return p.returncode
     pid = argv[0].upper()
     mod = importlib.import_module(pid.lower())
     if len(argv) >= 3 and argv[1] == "--replay":
